@@ -91,8 +91,8 @@ Definition position_method (r : row) : option meth :=
   else if at_pos r "Field" "" "descriptor" then Some (MDeclDesc DField)
   else if at_pos r "Method" "" "name" then Some (MDeclName DMethod)       (* 4.6 *)
   else if at_pos r "Method" "" "descriptor" then Some (MDeclDesc DMethod)
-  else if at_pos r "RecordComponent" "" "name" then Some (MDeclName DField)        (* 4.7.30: the component is the field of that name *)
-  else if at_pos r "RecordComponent" "" "descriptor" then Some (MDeclDesc DField)
+  else if at_pos r "RecordComponent" "" "name" then Some (MDeclName DRecord)       (* 4.7.30: the component is the field of that name *)
+  else if at_pos r "RecordComponent" "" "descriptor" then Some (MDeclDesc DRecord)
   else if at_pos r "EnclosingMethod" "" "class" then Some MEnclClass      (* 4.7.7 *)
   else if at_pos r "EnclosingMethod" "" "method" then Some MEnclMethod
   else if at_pos r "ElementValue" "Enum" "const_name" then Some MEnumConst (* 4.7.16.1 enum_const_value.const_name_index *)
@@ -121,10 +121,8 @@ Definition appropriate (r : row) : meth :=
       end
   end.
 
-(* ---- known findings: the table rows on which remap.rs falls short of this specification today
-   (known/C07.json F18c, F18d; as narrow as the rows themselves) ---- *)
-Definition known_row (r : row) : bool :=
-  at_pos r "ClassFile" "" "record_components"      (* F18c: Record attribute dropped *)
-  || at_pos r "ClassFile" "" "module"              (* F18d: Module / ModulePackages / ModuleMainClass dropped *)
-  || at_pos r "ClassFile" "" "module_packages"
-  || at_pos r "ClassFile" "" "module_main_class".
+(* ---- known findings: the table rows on which remap.rs falls short of this specification.
+   None today: the four rows recorded earlier (ClassFile.record_components — F18c —, ClassFile.module /
+   module_packages / module_main_class — F18d —: dropped by the remapper) were repaired in the source;
+   the theorems keep the parameter so that a row can be recorded here again, as narrow as the row itself ---- *)
+Definition known_row (r : row) : bool := false.
